@@ -19,7 +19,7 @@ EXPLANATION = (
     "the shapes of state.setter/_next_state/_change_state/next_state_indirect the model assumes are checked; R3 the "
     "three uncommandable targets raise before any controlword store; R4 mode tables mutually consistent and equal to "
     "CiA 402, support check dominates both 0x6060 stores and its TypeError is not swallowed; R5 the controlword "
-    "setter hands every assigned value to the drive (PDO store + transmit when not periodic, else SDO) on every path."
+    "setter hands every assigned value to the drive (PDO store + transmit when not periodic, else SDO) on every path. R6 no class-level mutable object is mutated in place by instances (each node/client/map/dictionary has its own state)."
 )
 ASSUMPTIONS = [
     "not decided: drive timing, automatic transitions racing the library's status reads, timeouts",
@@ -285,6 +285,10 @@ def run(chk):
                 g = [(src(e), p) for e, p in fc.facts_at(t.ast)]
                 chk.check(("pdo.is_periodic", False) in g or ("not pdo.is_periodic", True) in g, "R5",
                           f"{P}:BaseNode402.controlword.setter | transmit when not periodic", cw.loc(t.ast), f"transmit under {g}")
+
+    # ------------------------------------------------------------------ R6 instances are independent (shared clause)
+    from . import shared as _shared
+    _shared.isolation(chk, "R6", rels=['canopen/profiles/p402.py', 'canopen/pdo/base.py'])
 
 
 def _extract_decoder(chk, repo, folder, g, sw, mod):
